@@ -369,6 +369,9 @@ class Run:
             if self.known_hits[key] == 1:
                 log("KNOWN-FINDING: property=%s %s" % (self.prop, k["what"]))
             return None
+        if len(self.violations) >= 25:
+            self.violations.append(self.violations[-1])
+            return self.violations[-1]
         os.makedirs(REPLAYS, exist_ok=True)
         body = {"property": self.prop, "engine": engine, "case": case, "spec_allows": spec_allows,
                 "observed": observed, "seed": self.seed, "tier": self.tier}
